@@ -32,7 +32,10 @@ class C02(Check):
         pg = [{"op": "object", "cls": "Points", "parent": 0, "name": "p", "geom": {"n": 3, "g": [1, 2, 3, 4]}},
               {"op": "data", "obj": 0, "kind": "float", "assoc": "VERTEX", "vals": [1, 2, 3], "name": "a", "short": 0, "pg": "pg1"},
               {"op": "data", "obj": 0, "kind": "int", "assoc": "VERTEX", "vals": [1, 2, 3], "name": "b", "short": 0, "pg": "pg1"}]
-        cfg = {"weights": weights, "max_ops": 25, "prefixes": [[], [], dh, pg, dh + pg]}
+        # ... copied twice into the second workspace (the second time the children's identifiers are taken there)
+        pg_cross = pg + [{"op": "copy", "who": 0, "to": 0, "children": True, "clear": False, "ws": 1, "twice": True,
+                          "again_after_remove": False, "again_after_pg_delete": False}]
+        cfg = {"weights": weights, "max_ops": 25, "prefixes": [[], [], dh, pg, dh + pg, pg_cross]}
         if tier == "thorough":
             cfg.update({"max_ops": 40, "object_classes": tree.F.OBJECT_CLASSES,
                         "group_classes": tree.F.GROUP_CLASSES})
